@@ -452,6 +452,7 @@ func profileFor(prop string) Profile {
 		p.HeavyRain = 0.6
 		p.Stones = 0.5
 	case "C02", "C07":
+		p.Permanent = 0.1 // cuts of grass / alfalfa (a perennial legume that is followed by itself)
 		p.TillShallow = true
 		p.AutoProb = 0.12 // automatic management too (fertiliser applied by demand, automatic irrigation)
 		p.HeavyRain = 0.6
